@@ -68,9 +68,9 @@ def main():
         # the checks
         results = {}
         for chk in [pid] + [c for c in extra_checks if c != pid]:
-            for tier in ["quick", "thorough"]:
+            for tier in os.environ.get("SEED_TIERS", "quick,thorough").split(","):
                 t0 = time.time()
-                rc, out = sh("bin/check %s --tier %s" % (chk, tier), cwd=ROOT, env=dict(ENV, VERIF_REPO=WT, VERIF_EVIDENCE_OUT="/tmp/seed-evidence.json"), timeout=3600)
+                rc, out = sh("bin/check %s --tier %s" % (chk, tier), cwd=ROOT, env=dict(ENV, VERIF_REPO=WT, VERIF_EVIDENCE_OUT="/tmp/seed-evidence-%s.json" % os.path.basename(WT)), timeout=3600)
                 keys = [l.strip() for l in out.split("\n") if l.strip().startswith("key=")]
                 verdict = "DETECTED" if "VIOLATION property=" in out else ("INFRA" if rc == 2 else "missed")
                 results["%s/%s" % (chk, tier)] = {"verdict": verdict, "seconds": round(time.time() - t0), "keys": keys[:3], "tail": out[-400:] if verdict != "DETECTED" else ""}
